@@ -388,6 +388,7 @@ type Client struct {
 func (c *Client) Close() { c.Conn.Close() }
 
 type DialOpts struct {
+	LocalIP  string
 	TailCCS  int
 	Fragment int
 	Segment  int
@@ -399,6 +400,9 @@ type DialOpts struct {
 
 func dialRaw(addr string, o DialOpts) (*RecConn, error) {
 	d := net.Dialer{Timeout: 5 * time.Second}
+	if o.LocalIP != "" { // another loopback source address: the proxy's peer is not always 127.0.0.1
+		d.LocalAddr = &net.TCPAddr{IP: net.ParseIP(o.LocalIP)}
+	}
 	c, err := d.Dial("tcp", addr)
 	if err != nil {
 		return nil, err
